@@ -73,6 +73,26 @@ def _root(f, x, depth=3):
     return v
 
 
+def _reaches_header(f, b, i, d, h, var):
+    """can block h be reached from just after declaration d (at block b, index i) without passing another declaration of var?"""
+    if any(q["k"] == "decl" and q["var"] == var and q is not d for q in f.blocks[b]["ev"][i + 1:]):
+        return False
+    infeas = f.infeasible_edges()
+    seen, st = {b}, [b]
+    while st:
+        x = st.pop()
+        for s_ in f.succs(x):
+            if (x, s_) in infeas or s_ in seen:
+                continue
+            if s_ == h:
+                return True
+            if any(q["k"] == "decl" and q["var"] == var and q is not d for q in f.blocks[s_]["ev"]):
+                continue
+            seen.add(s_)
+            st.append(s_)
+    return b == h
+
+
 def range_for(f, h):
     """(range expression, element variable) if loop h is a range-based for (it visits every element of its range, in order), else None"""
     t = f.blocks[h].get("term")
@@ -83,8 +103,13 @@ def range_for(f, h):
     if not bv or not bv.startswith("__begin"):
         return None
     n = bv[len("__begin"):]
-    rd = [d for _, _, d in f.events(lambda q: q["k"] == "decl" and q["var"] == "__range" + n and q.get("init") is not None)]
-    ed = [d for _, _, d in f.events(lambda q: q["k"] == "decl" and isinstance(q.get("init"), list) and q["init"][:2] in (["un", "*"], ["opc", "*"]) and q["init"][2] == ["var", bv])]
+    rd = [(b, i, d) for b, i, d in f.events(lambda q: q["k"] == "decl" and q["var"] == "__range" + n and q.get("init") is not None)]
+    if len(rd) > 1:
+        # sibling range-fors at the same nesting depth reuse the compiler's names: take the declaration that reaches this header
+        rd = [(b, i, d) for b, i, d in rd if _reaches_header(f, b, i, d, h, "__range" + n)]
+    rd = [d for _, _, d in rd]
+    body = f.loops().get(h, set())
+    ed = [d for b, _, d in f.events(lambda q: q["k"] == "decl" and isinstance(q.get("init"), list) and q["init"][:2] in (["un", "*"], ["opc", "*"]) and q["init"][2] == ["var", bv]) if b in body]
     if len(rd) != 1 or len(ed) != 1:
         return None
     return rd[0]["init"], ed[0]["var"]
@@ -113,11 +138,13 @@ def columns(chk, P, funcs, rule="COLUMNS", operator_re=r"::(multiplyBy\w+|calc\w
         fs = sorted(P.fns_named(name), key=lambda g: g.line)
         if not chk.shape(bool(fs), rule, name.split("::")[-1] + ":found", "", "%d definitions" % len(fs)):
             continue
-        for k, f in enumerate(fs):
+        for k, f0 in enumerate(fs):
             short = name.split("::")[-1] + ("#%d" % k if len(fs) > 1 else "")
-            us = unit_sets(f)
-            chk.shape(bool(us), rule, short + ":unit-entry-loops", f.loc, "%d loops set one entry of a work vector to 1" % len(us))
-            for m, (h, body, b, i, e, iv) in enumerate(us):
+            # the function itself and its local lambdas (a column loop extracted into `auto part = [&](SpatialVec& Fb, ..) {..}`)
+            parts = [f0] + sorted([g for g in P.all_fns() if g.d.get("parent") == f0.id and g.blocks], key=lambda g: g.line)
+            us = [(g,) + u for g in parts for u in unit_sets(g)]
+            chk.shape(bool(us), rule, short + ":unit-entry-loops", f0.loc, "%d loops set one entry of a work vector to 1" % len(us))
+            for m, (f, h, body, b, i, e, iv) in enumerate(us):
                 n += 1
                 inst = "%s:unit#%d" % (short, m)
                 site = "%s:%d" % (f.file, e["line"])
@@ -138,17 +165,39 @@ def columns(chk, P, funcs, rule="COLUMNS", operator_re=r"::(multiplyBy\w+|calc\w
                           sorted({str(q["fn"]).split("::")[-1] for q in ops}))
                 # the work vector starts from zero
                 root = _root(f, lhs)
-                ds = [(db, di, d) for db, di, d in f.events(lambda q: q["k"] == "decl" and q["var"] == root)]
-                zero = False
-                if len(ds) == 1:
+
+                def starts_zero(F, root, at):
+                    ds = [(db, di, d) for db, di, d in F.events(lambda q: q["k"] == "decl" and q["var"] == root)]
+                    if len(ds) != 1:
+                        return False
                     init = ds[0][2].get("init")
                     zero = isinstance(init, list) and init[:1] == ["ctor"] and len(init[2]) >= 2 and bool(sx_find(init[2][-1], lambda y: y[0] == "lit" and str(y[1]) in ("0", "0.0", "0."))) and \
                         not sx_find(init[2][-1], lambda y: y[0] in ("var", "mem"))
                     if not zero:
                         z = lambda q: (q["k"] == "call" and str(q.get("fn", "")).endswith("::setToZero") and var_of(call_obj(q)) == root) or \
                             (bool(ev_write(q)) and ev_write(q)[0] == ["var", root] and ev_write(q)[1] == "=" and _lit(ev_write(q)[2], ("0", "0.0", "0.")))
-                        zero = any(True for _ in f.events(z)) and f.path_exists((ds[0][0], ds[0][1]), lambda q: q is e, z, lift=0) is None
-                chk.judge(zero, rule, inst + ":work-vector-starts-at-zero", site, "%s is zero before its first unit entry is set" % root)
+                        zero = any(True for _ in F.events(z)) and F.path_exists((ds[0][0], ds[0][1]), lambda q: q is at, z, lift=0) is None
+                    return zero
+                params = [p_[0] for p_ in f.d.get("params", [])]
+                if f is not f0 and root in params:
+                    # the work vector is handed to the lambda: judge the argument at every call of the lambda
+                    cs = [q for _, _, q in f0.calls() if q.get("fid") == f.id]
+                    k_ = params.index(root)
+                    zero = bool(cs)
+                    for q in cs:
+                        a = call_args(q)
+                        a = a[1:] if len(a) == len(params) + 1 else a      # operator(): the closure object may come first
+                        zero = zero and len(a) == len(params) and starts_zero(f0, _root(f0, a[k_]), q)
+                    root_desc = "%s (argument %d of the lambda)" % (root, k_)
+                elif f is not f0:
+                    # captured by reference: the parent's variable, zero before the lambda is first called
+                    cs = [q for _, _, q in f0.calls() if q.get("fid") == f.id]
+                    zero = bool(cs) and all(starts_zero(f0, root, q) for q in cs)
+                    root_desc = root
+                else:
+                    zero = starts_zero(f, root, e)
+                    root_desc = root
+                chk.judge(zero, rule, inst + ":work-vector-starts-at-zero", site, "%s is zero before its first unit entry is set" % root_desc)
                 # loop shape
                 _, c = _loop_var(f, h)
                 d0 = [d for _, _, d in f.events(lambda q: q["k"] == "decl" and q["var"] == iv)]
@@ -198,21 +247,33 @@ def node_sweeps(chk, P, funcs, rule="SWEEP", direction=None):
                   body = loops[h]
                   iv, c = _loop_var(f, h)
                   rf = range_for(f, h)
-                  if rf is not None:
-                      # node loop written as a range-for over rbNodeLevels[i]
-                      if not (lv(rf[0]) and sx_find(rf[0], lambda y: y[0] in ("opc", "idx") and len(y) > 3)):
-                          continue
-                  else:
-                      if not iv or not isinstance(c, list):
-                          continue
-                      # node loop: bound is rbNodeLevels[i].size()
-                      if not (c[1] == "<" and lv(c[3]) and sx_find(c[3], lambda y: y[0] in ("opc", "idx") and len(y) > 3)):
-                          continue
                   outer = [oh for oh in f.loops_of(h) if oh != h and h in loops[oh]]
                   if not outer:
                       continue
                   oh = min(outer, key=lambda x: len(loops[x]))
+                  # the level loop may itself be a range-for over rbNodeLevels (`for (const auto& level : rbNodeLevels)`: levels 0..last)
+                  orf = range_for(f, oh)
+                  if orf is not None and not (lv(orf[0]) and not sx_find(orf[0], lambda y: y[0] in ("opc", "idx") and len(y) > 3)):
+                      orf = None
+
+                  def one_level(x):
+                      """x is `rbNodeLevels[i]` or the element variable of the enclosing range-for over rbNodeLevels"""
+                      if lv(x) and sx_find(x, lambda y: y[0] in ("opc", "idx") and len(y) > 3):
+                          return True
+                      return orf is not None and bool(sx_find(x, lambda y: y == ["var", orf[1]]))
+                  if rf is not None:
+                      # node loop written as a range-for over rbNodeLevels[i] / over the level variable
+                      if not one_level(rf[0]):
+                          continue
+                  else:
+                      if not iv or not isinstance(c, list):
+                          continue
+                      # node loop: bound is rbNodeLevels[i].size() / level.size()
+                      if not (c[1] == "<" and one_level(c[3])):
+                          continue
                   ov, oc = _loop_var(f, oh)
+                  if orf is not None:
+                      ov = orf[1]
                   direction = direction or {}
                   calls = [q for bb in body for q in f.blocks[bb]["ev"] if q["k"] == "call" and "RigidBodyNode" in str(q.get("fn", "")) and
                            (re.search(r"(Inward|Outward)$", str(q["fn"])) or str(q["fn"]).split("::")[-1] in direction)]
@@ -225,7 +286,11 @@ def node_sweeps(chk, P, funcs, rule="SWEEP", direction=None):
                       od = [d for d in od if f.path_exists(_pos(f, d), lambda z: z is q, lambda z: any(z is o for o in od if o is not d), lift=0) is not None]
                       init = od[0].get("init") if len(od) == 1 else None
                       st = _steps(f, loops[oh] - body, ov)
-                      if rn.endswith("Inward") or direction.get(rn) == "Inward":
+                      if orf is not None:
+                          inward = rn.endswith("Inward") or direction.get(rn) == "Inward"
+                          chk.judge(not inward, rule, "%s:%s:%s" % (name, rn, "levels-last..0-children-before-parents" if inward else "levels-0..last-parents-before-children"), site,
+                                    "level loop is a range-for over %s (levels 0..last in order)" % sx_str(orf[0]))
+                      elif rn.endswith("Inward") or direction.get(rn) == "Inward":
                           ok = isinstance(init, list) and lv(init) and bool(sx_find(init, lambda y: y[0] in ("op", "opc") and y[1] == "-" and _lit(y[3], ("1",)))) and \
                               isinstance(oc, list) and oc[1] in (">=", ">") and _lit(oc[3], ("0",)) and st == ["--"]
                           chk.judge(ok, rule, "%s:%s:levels-last..0-children-before-parents" % (name, rn), site, "level loop %s = %s; %s; %s" % (ov, sx_str(init), sx_str(oc), st))
